@@ -1,10 +1,191 @@
 import Dmn.Model.Sexp
+import Dmn.Model.DecWire
+import Dmn.Model.DecString
+import Dmn.Model.DecSpec
 
-/-! Driver handler for C02 — not implemented yet. -/
+/-! Driver handler for C02.
+
+* `(c02 op <name> A [B])` with finite operands `(n neg coeff exp)` (for `rescale` B is the
+  integer scale) → `(op R F S)`: `R` the model of the `dec_*` function (`dec.rs`), `F` the model
+  of the `FeelNumber` method/operator (`number.rs`; `(none)` for `None`), `S` the specification's
+  verdict on `R` (`true`/`false`/`na`);
+* `(c02 judge <name> A [B] R)` → `(judge S)`: the specification applied to a given result;
+* `(c02 feel <name> X [Y])` with operands that may be special → `(feel F)`: `FeelNumber`
+  operators on values that may already be infinite / NaN;
+* `(c02 cmp A B)` → `(cmp lt|eq|gt)`. -/
 
 namespace Dmn.Driver.C02
-open Dmn
+open Dmn Dmn.D128 Dmn.DecWire
 
-def handle (_args : List Sexp) : String := "(error not-implemented)"
+def two : D128 := ⟨false, 2, 0⟩
+
+/-- raw (`dec.rs`) result, FeelNumber-level result, specification verdict -/
+def opAnswer (name : String) (a : D128) (b : Option D128) (k : Option Int) : Option (String × String × String) :=
+  let sb (p : Prop) [Decidable p] : String := boolStr (decide p)
+  match name, b, k with
+  | "add", some b, _ =>
+    let r := D128.add a b
+    some (showR r, showR r.reduce, sb (AddSpec a b r))
+  | "sub", some b, _ =>
+    let r := D128.sub a b
+    some (showR r, showR r.reduce, sb (AddSpec a (D128.flip b) r))
+  | "mul", some b, _ =>
+    let r := D128.mul a b
+    some (showR r, showR r.reduce, sb (MulSpec a b r))
+  | "div", some b, _ =>
+    let r := D128.div a b
+    some (showR r, showR r.reduce, sb (DivSpec a b r))
+  | "neg", none, _ =>
+    let r := D128.negate a
+    some (showDec r, showDec r, sb (r.coeff = a.coeff ∧ r.exp = a.exp ∧ r.neg = (!a.neg && a.coeff != 0)))
+  | "abs", none, _ =>
+    let r := D128.abs a
+    some (showDec r, showDec r, sb (r.coeff = a.coeff ∧ r.exp = a.exp ∧ r.neg = false))
+  | "reduce", none, _ =>
+    let r := D128.reduce a
+    some (showDec r, showDec r, sb (SameValue r a ∧ r.neg = a.neg ∧ WF r ∧
+      (r.coeff = 0 ∨ r.coeff % 10 ≠ 0 ∨ r.exp = eTop)))
+  | "floor", none, _ =>
+    let r := D128.floor a
+    some (showDec r, showDec (D128.reduce r), sb (FloorSpec a r))
+  | "ceiling", none, _ =>
+    let r := D128.ceiling a
+    some (showDec r, showDec (D128.reduce r), sb (CeilSpec a r))
+  | "trunc", none, _ =>
+    let r := D128.trunc a
+    some (showDec r, showDec r, "na")
+  | "fract", none, _ =>
+    let r := D128.fract a
+    some (showR r, showR r, "na")
+  | "rescale", none, some k =>
+    let r := D128.rescale a k
+    some (showR r, showR r, sb (RescaleSpec a k r))
+  | "sqrt", none, _ =>
+    let r := D128.sqrt a
+    some (showR r, showOpt (FNum.sqrt (.fin a)), sb (SqrtSpec a r))
+  | "remainder", some b, _ =>
+    let r := D128.remainder a b
+    some (showR r, showR r, "na")
+  | "modulo", some b, _ =>
+    let r := FNum.modulo (.fin a) (.fin b)
+    some (showR r, showR r, "na")
+  | "even", none, _ =>
+    let r := FNum.even (.fin a)
+    -- specification: the value is an even integer
+    let spec := match D128.toInt? a with
+      | some i => i % 2 == 0
+      | none => false
+    some (boolStr r, boolStr r, boolStr (r == spec))
+  | "odd", none, _ =>
+    let r := FNum.odd (.fin a)
+    let spec := match D128.toInt? a with
+      | some i => i % 2 == 1
+      | none => false
+    some (boolStr r, boolStr r, boolStr (r == spec))
+  | "isint", none, _ =>
+    let r := D128.isInteger a
+    some (boolStr r, boolStr r, boolStr (r == D128.isIntegral a))
+  | _, _, _ => none
+
+def judge (name : String) (a : D128) (b : Option D128) (k : Option Int) (r : D128R) : Option Bool :=
+  match name, b, k with
+  | "add", some b, _ => some (decide (AddSpec a b r))
+  | "sub", some b, _ => some (decide (AddSpec a (D128.flip b) r))
+  | "mul", some b, _ => some (decide (MulSpec a b r))
+  | "div", some b, _ => some (decide (DivSpec a b r))
+  | "sqrt", none, _ => some (decide (SqrtSpec a r))
+  | "rescale", none, some k => some (decide (RescaleSpec a k r))
+  | "floor", none, _ => match r with
+    | .fin d => some (decide (FloorSpec a d))
+    | _ => some false
+  | "ceiling", none, _ => match r with
+    | .fin d => some (decide (CeilSpec a d))
+    | _ => some false
+  | _, _, _ => none
+
+def feelOp (name : String) (x : D128R) (y : Option D128R) (k : Option Int) : Option String :=
+  match name, y, k with
+  | "add", some y, _ => some (showR (FNum.add x y))
+  | "sub", some y, _ => some (showR (FNum.sub x y))
+  | "mul", some y, _ => some (showR (FNum.mul x y))
+  | "div", some y, _ => some (showR (FNum.div x y))
+  | "modulo", some y, _ => some (showR (FNum.modulo x y))
+  | "neg", none, _ => some (showR (FNum.neg x))
+  | "abs", none, _ => some (showR (FNum.abs x))
+  | "floor", none, _ => some (showR (FNum.floor x))
+  | "ceiling", none, _ => some (showR (FNum.ceiling x))
+  | "round", none, some k => some (showR (FNum.round x k))
+  | "sqrt", none, _ => some (showOpt (FNum.sqrt x))
+  | "cmp", some y, _ => some (showOrd (FNum.cmp x y))
+  | "eq", some y, _ => some (boolStr (FNum.eq x y))
+  | "show", none, _ => some (match plainR x with
+      | some t => toString (Sexp.ofChars t)
+      | none => "panic")
+  | _, _, _ => none
+
+def handle (args : List Sexp) : String :=
+  match args with
+  | [.atom "cmp", a, b] =>
+    match dec? a, dec? b with
+    | some a, some b => s!"(cmp {showOrd (D128.cmp a b)})"
+    | _, _ => "(error bad-operand)"
+  | [.atom "op", .atom name, a] =>
+    match dec? a with
+    | some a =>
+      match opAnswer name a none none with
+      | some (r, f, s) => s!"(op {r} {f} {s})"
+      | none => "(error unknown-op)"
+    | none => "(error bad-operand)"
+  | [.atom "op", .atom name, a, b] =>
+    match dec? a with
+    | some a =>
+      let ans := match dec? b with
+        | some b => opAnswer name a (some b) none
+        | none => match Sexp.int? b with
+          | some k => opAnswer name a none (some k)
+          | none => none
+      match ans with
+      | some (r, f, s) => s!"(op {r} {f} {s})"
+      | none => "(error unknown-op)"
+    | none => "(error bad-operand)"
+  | [.atom "judge", .atom name, a, r] =>
+    match dec? a, decR? r with
+    | some a, some r =>
+      match judge name a none none r with
+      | some v => s!"(judge {boolStr v})"
+      | none => "(judge na)"
+    | _, _ => "(error bad-operand)"
+  | [.atom "judge", .atom name, a, b, r] =>
+    match dec? a, decR? r with
+    | some a, some r =>
+      let v := match dec? b with
+        | some b => judge name a (some b) none r
+        | none => match Sexp.int? b with
+          | some k => judge name a none (some k) r
+          | none => none
+      match v with
+      | some v => s!"(judge {boolStr v})"
+      | none => "(judge na)"
+    | _, _ => "(error bad-operand)"
+  | [.atom "feel", .atom name, x] =>
+    match decR? x with
+    | some x =>
+      match feelOp name x none none with
+      | some s => s!"(feel {s})"
+      | none => "(error unknown-op)"
+    | none => "(error bad-operand)"
+  | [.atom "feel", .atom name, x, y] =>
+    match decR? x with
+    | some x =>
+      let ans := match decR? y with
+        | some y => feelOp name x (some y) none
+        | none => match Sexp.int? y with
+          | some k => feelOp name x none (some k)
+          | none => none
+      match ans with
+      | some s => s!"(feel {s})"
+      | none => "(error unknown-op)"
+    | none => "(error bad-operand)"
+  | _ => "(error bad-request)"
 
 end Dmn.Driver.C02
